@@ -38,6 +38,9 @@ structure G where
   s : BState := binit
   mem : List (String × String) := []
   slaveMB : Bool := false
+  flavor : String := "memb"           -- memb | mb | qsbr | bp
+  rctr : List (Nat × String) := []      -- qsbr: last value a thread stored to its own reader word
+  bpReg : List Nat := []                -- bp: trace threads whose reader slot is registered
   legacyMb : Bool := true
   tidH : List (Nat × Nat) := []          -- trace tid of a helper thread ↦ helper id
   rnest : Nat → Nat := fun _ => 0
@@ -170,7 +173,7 @@ def foreignLoc (l : String) : Bool :=
   l.startsWith "gp." || l.startsWith "reader" || l.startsWith "waiters." || l.startsWith "stack"
 
 def isForeign (e : Ev) : Bool :=
-  if ["MB", "CB", "RMB", "WMB", "RELAX", "POLL", "MBAR"].contains e.op then true
+  if ["MB", "CB", "RMB", "WMB", "RELAX", "POLL", "MBAR", "SIGMASK"].contains e.op then true
   else if e.op == "LOCK" || e.op == "UNLOCK" then e.arg 0 == "registry_lock" || e.arg 0 == "gp_lock"
   else if ["LD", "ST", "XCHG", "CAS", "ADD", "SUB", "ADDR", "SUBR", "AND", "OR", "FUTEX_WAIT", "FUTEX_WOKEN", "FUTEX_WAKE"].contains e.op then
     foreignLoc (e.arg 0)
@@ -180,12 +183,16 @@ def isForeign (e : Ev) : Bool :=
 thread's private queue on its stack) is pushed back; the call must really be there (its `urcu_wait_add`) -/
 partial def syncOpaque (t : Nat) (own : List String) (seen : Bool := false) : M Unit := do
   let e ← nextEv t "events of synchronize_rcu()"
-  if isForeign e && !(own.contains (e.arg 0)) then
-    -- every synchronize_rcu() queues itself on the grace-period wait queue (urcu_wait_add = xchg of the stack head)
-    syncOpaque t own (seen || (e.op == "XCHG" && e.arg 0 == "waiters.head"))
+  if isForeign e && !(own.contains (e.arg 0)) then do
+    -- qsbr: an online caller goes offline / online inside; remember what it left in its reader word
+    if e.op == "ST" && e.arg 0 == s!"reader{t}.ctr" then
+      modify fun g => { g with rctr := (t, e.arg 1) :: g.rctr.filter (·.1 != t) }
+    -- every synchronize_rcu() queues itself on the grace-period wait queue (urcu_wait_add = xchg of the stack head);
+    -- bp has no wait queue: it takes rcu_gp_lock
+    syncOpaque t own (seen || (e.op == "XCHG" && e.arg 0 == "waiters.head") || (e.op == "LOCK" && e.arg 0 == "gp_lock"))
   else do
     unget t e
-    if !seen then P.fail "expected synchronize_rcu() here (no urcu_wait_add on waiters.head seen)"
+    if !seen then P.fail "expected synchronize_rcu() here (neither urcu_wait_add on waiters.head nor rcu_gp_lock seen)"
 
 /-- futex(FUTEX_WAKE, 1) on `loc`; returns the number of threads woken (ENOSYS: compat = mb, 0) -/
 def futexWake (t : Nat) (loc : String) : M Nat := do
@@ -220,37 +227,159 @@ def anyAt (t : Nat) (op loc : String) : M (List String) := do
   let e ← nextEv t s!"{op} {loc}"
   if e.op == op && e.arg 0 == loc then pure (e.args.drop 1) else P.fail s!"expected {op} {loc}"
 
-def readLock (t : Nat) : M Unit := do
+/-- qsbr `urcu_qsbr_wake_up_gp()` -/
+def wakeUpGp (t : Nat) : M Unit := do
+  let a ← anyAt t "LD" s!"reader{t}.waiting"
+  if a.head? != some "0" then do
+    let b ← anyAt t "ST" s!"reader{t}.waiting"
+    if b.head? != some "0" then P.fail "wake_up_gp: waiting := 0 expected"
+    mbEv t
+    let f ← anyAt t "LD" "gp.futex"
+    if f.head? == some "-1" then do
+      let _ ← anyAt t "ST" "gp.futex"
+      let e ← nextEv t "FUTEX_WAKE gp.futex"
+      if e.op != "FUTEX_WAKE" then P.fail "expected FUTEX_WAKE gp.futex"
+      if e.arg 3 == "ENOSYS" then mbEv t
+    cover "qsbr_wake_up_gp"
+
+def setRctr (t : Nat) (v : String) : M Unit := modify fun g => { g with rctr := (t, v) :: g.rctr.filter (·.1 != t) }
+def getRctr (g : G) (t : Nat) : String := (g.rctr.lookup t).getD "0"
+
+/-- qsbr `_urcu_qsbr_thread_online()` -/
+def qsOnline (t : Nat) (atStore : M Unit := pure ()) : M Unit := do
   cbEv t
+  let a ← anyAt t "LD" "gp.ctr"
+  let v := a.head?.getD "?"
+  let b ← anyAt t "ST" s!"reader{t}.ctr"
+  if b.head? != some v then P.fail s!"thread_online: stores {b.head?.getD "?"} to its reader word, gp.ctr was {v}"
+  atStore
+  mbEv t
+  setRctr t v
+
+/-- qsbr `_urcu_qsbr_thread_offline()` -/
+def qsOffline (t : Nat) (atStore : M Unit := pure ()) : M Unit := do
+  let b ← anyAt t "ST" s!"reader{t}.ctr"
+  if b.head? != some "0" then P.fail "thread_offline: reader word := 0 expected"
+  if !moOk ((b.drop 1).head?.getD "") 5 then P.fail "thread_offline: the store to the reader word must be seq_cst"
+  atStore
+  wakeUpGp t
+  cbEv t
+  setRctr t "0"
+
+/-- qsbr `_urcu_qsbr_quiescent_state()` -/
+def qsQuiescent (t : Nat) (atStore : M Unit := pure ()) : M Unit := do
+  let a ← anyAt t "LD" "gp.ctr"
+  let v := a.head?.getD "?"
   let g ← P.get
-  if g.rnest t == 0 then do
-    let _ ← anyAt t "LD" "gp.ctr"
-    let _ ← anyAt t "ST" s!"reader{t}.ctr"
-    slave t
+  if v == getRctr g t then do atStore; cover "qs_already_current"
   else do
-    let _ ← anyAt t "ST" s!"reader{t}.ctr"
+    let b ← anyAt t "ST" s!"reader{t}.ctr"
+    if b.head? != some v then P.fail s!"quiescent_state: stores {b.head?.getD "?"}, gp.ctr was {v}"
+    if !moOk ((b.drop 1).head?.getD "") 5 then P.fail "quiescent_state: the store to the reader word must be seq_cst"
+    atStore
+    wakeUpGp t
+    mbEv t
+    setRctr t v
+    cover "qs_announced"
+
+def isQsbr (g : G) : Bool := g.flavor == "qsbr"
+def isBp (g : G) : Bool := g.flavor == "bp"
+def qsbrOnline (g : G) (t : Nat) : Bool := isQsbr g && getRctr g t != "0"
+
+/-- bp `urcu_bp_register()` (first read-side use of a thread, signals blocked) -/
+def bpRegister (t : Nat) : M Unit := do
+  expectEv t "SIGMASK" ["block"]
+  -- _urcu_bp_init(): init_lock section (constructor already ran: nothing else)
+  let e ← nextEv t "LOCK init_lock / registry_lock"
+  if e.op == "LOCK" && e.arg 0 == "init_lock" then do
+    expectEv t "UNLOCK" ["init_lock"]
+    expectEv t "LOCK" ["registry_lock"]
+  else if e.op == "LOCK" && e.arg 0 == "registry_lock" then pure ()
+  else P.fail "urcu_bp_register: expected LOCK init_lock / registry_lock"
+  expectEv t "UNLOCK" ["registry_lock"]
+  expectEv t "SIGMASK" ["restore"]
+  modify fun g => { g with bpReg := t :: g.bpReg }
+  cover "bp_registered"
+
+def bpEnsureReg (t : Nat) : M Unit := do
+  let g ← P.get
+  if isBp g && !g.bpReg.contains t then bpRegister t
+
+/-- bp: the pthread-key destructor unregisters an exiting thread (`urcu_bp_unregister`, signals blocked) -/
+def bpExit (t : Nat) : M Unit := do
+  let g ← P.get
+  if isBp g && g.bpReg.contains t then do
+    expectEv t "SIGMASK" ["block"]
+    expectEv t "LOCK" ["registry_lock"]; expectEv t "UNLOCK" ["registry_lock"]
+    expectEv t "LOCK" ["init_lock"]; expectEv t "UNLOCK" ["init_lock"]
+    expectEv t "SIGMASK" ["restore"]
+    modify fun g => { g with bpReg := g.bpReg.filter (· != t) }
+    cover "bp_unregistered_at_exit"
+
+def readLock (t : Nat) : M Unit := do
+  let g ← P.get
+  if isQsbr g then pure ()          -- rcu_read_lock() is a no-op
+  else do
+    bpEnsureReg t
+    cbEv t
+    if g.rnest t == 0 then do
+      let _ ← anyAt t "LD" "gp.ctr"
+      let _ ← anyAt t "ST" s!"reader{t}.ctr"
+      slave t
+    else do
+      let _ ← anyAt t "ST" s!"reader{t}.ctr"
   modify fun g => { g with rnest := upd g.rnest t (g.rnest t + 1) }
 
 def readUnlock (t : Nat) (mbFlavor : Bool) : M Unit := do
   let g ← P.get
   if g.rnest t == 0 then P.fail "rcu_read_unlock with nesting 0"
-  if g.rnest t == 1 then do
-    if mbFlavor then do
-      let _ ← anyAt t "ST" s!"reader{t}.ctr"
-    else do
-      slave t
-      let _ ← anyAt t "ST" s!"reader{t}.ctr"
-      slave t
-    let a ← anyAt t "LD" "gp.futex"
-    if a.head? == some "-1" then do
-      let _ ← anyAt t "ST" "gp.futex"
-      let e ← nextEv t "FUTEX_WAKE gp.futex"
-      if e.op != "FUTEX_WAKE" then P.fail "expected FUTEX_WAKE gp.futex"
-      if e.arg 3 == "ENOSYS" then mbEv t
-  else do
+  if isQsbr g then pure ()
+  else if isBp g then do
+    slave t
     let _ ← anyAt t "ST" s!"reader{t}.ctr"
-  cbEv t
+    cbEv t
+  else do
+    if g.rnest t == 1 then do
+      if mbFlavor then do
+        let _ ← anyAt t "ST" s!"reader{t}.ctr"
+      else do
+        slave t
+        let _ ← anyAt t "ST" s!"reader{t}.ctr"
+        slave t
+      let a ← anyAt t "LD" "gp.futex"
+      if a.head? == some "-1" then do
+        let _ ← anyAt t "ST" "gp.futex"
+        let e ← nextEv t "FUTEX_WAKE gp.futex"
+        if e.op != "FUTEX_WAKE" then P.fail "expected FUTEX_WAKE gp.futex"
+        if e.arg 3 == "ENOSYS" then mbEv t
+    else do
+      let _ ← anyAt t "ST" s!"reader{t}.ctr"
+    cbEv t
   modify fun g => { g with rnest := upd g.rnest t (g.rnest t - 1) }
+
+/-- `rcu_register_thread()` -/
+def registerThread (t : Nat) (atStore : M Unit := pure ()) : M Unit := do
+  let g ← P.get
+  if isBp g then bpEnsureReg t      -- urcu_bp_register_thread(): registers unless a read-side section already did
+  else do
+    expectEv t "LOCK" ["registry_lock"]; expectEv t "UNLOCK" ["registry_lock"]
+    if isQsbr g then qsOnline t atStore
+
+/-- `rcu_unregister_thread()` -/
+def unregisterThread (t : Nat) (atStore : M Unit := pure ()) : M Unit := do
+  let g ← P.get
+  if isBp g then pure ()
+  else do
+    if isQsbr g then qsOffline t atStore
+    expectEv t "LOCK" ["registry_lock"]; expectEv t "UNLOCK" ["registry_lock"]
+
+/-- `rcu_thread_offline()` / `rcu_thread_online()` as called by the call_rcu code (no-ops except in qsbr) -/
+def threadOffline (t : Nat) (atStore : M Unit := pure ()) : M Unit := do
+  let g ← P.get
+  if isQsbr g then qsOffline t atStore
+def threadOnline (t : Nat) (atStore : M Unit := pure ()) : M Unit := do
+  let g ← P.get
+  if isQsbr g then qsOnline t atStore
 
 -- ------------------------------------------------------------------------------------------
 -- names
@@ -391,10 +520,14 @@ def dataInit (t : Nat) (rtFlag : Bool) (ptrLoc : Option String) (after : M Unit)
   | none => if !(e.arg 0).startsWith "stack" then P.fail s!"expected the new helper pointer in a local, got {e.arg 0}"
   -- the store above is the publication point (the default pointer is read without the mutex)
   after
+  -- pthread_sigmask(SIG_BLOCK) … pthread_create … pthread_sigmask(SIG_SETMASK): traced in the bp build only
+  let g ← P.get
+  if isBp g then expectEv t "SIGMASK" ["block"]
   let e ← nextEv t "SPAWN"
   if e.op != "SPAWN" || e.arg 1 != "lib" then P.fail "expected SPAWN of the helper thread"
   let nt ← num ((e.arg 0).drop 1).toString
   modify fun g => { g with tidH := (nt, h) :: g.tidH }
+  if isBp g then expectEv t "SIGMASK" ["restore"]
   cover (if rtFlag then "helper_created_rt" else "helper_created")
   pure h
 
@@ -674,7 +807,7 @@ partial def futexWaitLoop (t : Nat) (loc : String) (onLd : Int → M Unit) (onWa
     else pure ()
   loop
 
-partial def barrier (t : Nat) : M Unit := do
+partial def barrierBody (t : Nat) : M Unit := do
   let g ← P.get
   if g.rnest t > 0 then do
     lab (.bRefused (mt g t))
@@ -746,6 +879,19 @@ partial def barrier (t : Nat) : M Unit := do
     if r == 0 then do expectEv t "FREE" [cn]; cover "completion_freed_by_caller"
     cover "barrier_complete"
 
+/-- `rcu_barrier()`: `was_online = _rcu_read_ongoing(); if (was_online) rcu_thread_offline(); … ; if (was_online)
+rcu_thread_online()` – only qsbr has events here (bp: `_rcu_read_ongoing()` registers the thread on first use) -/
+partial def barrier (t : Nat) : M Unit := do
+  bpEnsureReg t
+  let g ← P.get
+  let wasOn := qsbrOnline g t
+  if wasOn then do
+    qsOffline t (do let g ← P.get; labB (.runlock (mt g t)))
+    cover "barrier_caller_was_online"
+  else if isQsbr g then cover "barrier_caller_was_offline"
+  barrierBody t
+  if wasOn then qsOnline t (do let g ← P.get; labB (.rlock (mt g t)))
+
 /-- `_rcu_barrier_complete(head)` running on helper `h` for the work item `wn` -/
 def barrierComplete (t h : Nat) (wn : String) : M Unit := do
   let g ← P.get
@@ -808,16 +954,32 @@ partial def userOp (fl : Flav) (t : Nat) (e : Ev) : M Bool := do
       readUnlock t fl.mb
       expectEv t "RET" ["unlock"]; pure true
   | "CALL", ["register"] => do
-      expectEv t "LOCK" ["registry_lock"]; expectEv t "UNLOCK" ["registry_lock"]; expectEv t "RET" ["register"]; pure true
+      -- qsbr: a registered online thread is an open read-side section since its last quiescent state
+      registerThread t (do let g ← P.get; labB (.rlock (mt g t)))
+      expectEv t "RET" ["register"]; pure true
   | "CALL", ["unregister"] => do
-      expectEv t "LOCK" ["registry_lock"]; expectEv t "UNLOCK" ["registry_lock"]; expectEv t "RET" ["unregister"]; pure true
+      unregisterThread t (do let g ← P.get; labB (.runlock (mt g t)))
+      expectEv t "RET" ["unregister"]; pure true
+  | "CALL", ["qs"] => do
+      qsQuiescent t (do let g ← P.get; labB (.runlock (mt g t)); labB (.rlock (mt g t)))
+      expectEv t "RET" ["qs"]; pure true
+  | "CALL", ["offline"] => do
+      qsOffline t (do let g ← P.get; labB (.runlock (mt g t)))
+      expectEv t "RET" ["offline"]; cover "user_offline"; pure true
+  | "CALL", ["online"] => do
+      qsOnline t (do let g ← P.get; labB (.rlock (mt g t)))
+      expectEv t "RET" ["online"]; pure true
   | "CALL", ["sync"] => do
       let g ← P.get
+      let wasOn := qsbrOnline g t
+      if wasOn then do labB (.runlock (mt g t)); cover "sync_caller_was_online"
       labB (.syncStart (mt g t))
       syncOpaque t []
       expectEv t "RET" ["sync"]
       let g ← P.get
-      labB (.syncEnd (mt g t)); cover "synchronize_rcu_user"; pure true
+      labB (.syncEnd (mt g t))
+      if wasOn then labB (.rlock (mt g t))
+      cover "synchronize_rcu_user"; pure true
   | "CALL", ["call_rcu", ids] => do
       let id ← num ids
       callRcuFull fl t id
@@ -997,7 +1159,7 @@ partial def helperThread (fl : Flav) (t h : Nat) : M Unit := do
   let nm := crdName h
   let f0 ← ldFlags t h
   let rt := hasBit f0 F_RT
-  expectEv t "LOCK" ["registry_lock"]; expectEv t "UNLOCK" ["registry_lock"]
+  registerThread t
   labB (.hStart h)
   modify fun g => { g with thrK := upd g.thrK t (h + 1) }
   if !rt then do
@@ -1082,6 +1244,10 @@ partial def helperThread (fl : Flav) (t h : Nat) : M Unit := do
     labB (.hStopChk h)
     if hasBit f F_STOP then cover "helper_stop_seen"
     else do
+      -- rcu_thread_offline(): a helper never sleeps / polls online (qsbr: it would block every grace period)
+      threadOffline t
+      let g ← P.get
+      if isQsbr g then cover "helper_sleeps_offline"
       if !rt then do
         let empty ← wfcqEmpty t s!"{nm}.head" s!"{nm}.tail"
         check fun g => if empty != (g.s.base.queue h).isEmpty then some s!"cds_wfcq_empty({nm}) = {empty} but the model queue is {repr (g.s.base.queue h)}" else none
@@ -1105,6 +1271,8 @@ partial def helperThread (fl : Flav) (t h : Nat) : M Unit := do
         expectEv t "POLL" []
         labB (.hPollN h)
         cover "helper_poll_rt"
+      -- rcu_thread_online()
+      threadOnline t
       mainLoop
   mainLoop
   if !rt then do
@@ -1113,7 +1281,8 @@ partial def helperThread (fl : Flav) (t h : Nat) : M Unit := do
     labB (.hExitSt h)
   let _ ← bitM t "OR" s!"{nm}.flags" (fun o => o ||| F_STOPPED) (toString F_STOPPED)
   labB (.hExitOr h)
-  expectEv t "LOCK" ["registry_lock"]; expectEv t "UNLOCK" ["registry_lock"]
+  unregisterThread t
+  bpExit t
   expectEv t "THREAD_EXIT" []
   cover "helper_exit"
 
@@ -1128,12 +1297,20 @@ partial def thread (fl : Flav) (t : Nat) : M Unit := do
   else match e.op with
     | "WORKER" | "ADMIN" | "SPAWN" | "FINAL" => thread fl t
     | "THREAD_EXIT" => pure ()
+    | "SIGMASK" => do
+        -- bp: the key destructor of an exiting thread
+        unget t e
+        let g ← P.get
+        if isBp g && g.bpReg.contains t then do bpExit t; thread fl t
+        else P.fail s!"unexpected event outside an API call: {e.show}"
     | _ => P.fail s!"unexpected event outside an API call: {e.show}"
 
 def cfgLine (g : G) (ws : List String) : G :=
   ws.foldl (fun g w =>
     match w.splitOn "=" with
-    | ["flavor", "mb"] => { g with slaveMB := true }
+    | ["flavor", "mb"] => { g with slaveMB := true, flavor := "mb" }
+    | ["flavor", "qsbr"] => { g with flavor := "qsbr", c := { g.c with qsbr := true } }
+    | ["flavor", f] => { g with flavor := f }
     | ["membarrier", "0"] => { g with slaveMB := true }
     | ["ncpus", n] => { g with c := { g.c with ncpu := n.toNat?.getD 4 } }
     | ["legacymb", "0"] => { g with legacyMb := false }
